@@ -13,6 +13,8 @@ CLAIMED = {
          "With std atomics trusted the single-RMW rule is sufficient (not only necessary) for exactly-once application; decided for every handle/atomic/Arc/From region and every HistogramFn impl in the workspace."),
  "C14": ("ownership-effect table per (function x kind arm) over MIR (edge-dominated arm regions, argument provenance, release-on-unwind reachability), encoding-table agreement, unsafe-impl bounds + witnesses",
          "For both Cowable impls every kind arm of owned_from_parts/clone_from_parts/drop_from_parts is decided to perform exactly the acquire/release effects the encoding requires, on normal and unwind paths; Vec/Arc raw-parts APIs are trusted."),
+ "C13": ("forwarding + kind-consistency + sibling-isomorphism over MIR for every layer's Recorder impl; switch-edge gates for the filter; mask/arm tables and provenance for the router; loop-shape (whole-vector iteration, exit only on exhaustion) for the fanout",
+         "Every Recorder method of Stack/Prefix/Filter/Router/Fanout and every Fanout*Fn method is decided on all paths; radix_trie::get_ancestor and aho_corasick::is_match semantics are trusted."),
 }
 checks = []
 for p in props:
